@@ -115,6 +115,15 @@ class Impl:
             elif name == 'io':
                 if self.ex.jobs:
                     self.ex.run_one()
+            elif name == 'read':
+                with self.blob.reader_context() as r:
+                    res = ['read', r.read()]
+            elif name == 'delete':
+                # modelled only when nothing of this blob is in flight
+                if self.qlen() == 0 and not self.ex.jobs and not self.blob.writing.is_set():
+                    self.blob.delete()
+                else:
+                    res = 'skipped'
             else:
                 raise ValueError(name)
         except OSError:
@@ -203,22 +212,25 @@ def canon_obs(o):
 # ----------------------------------------------------------------------------------------------
 
 class Monitor:
-    def __init__(self, blob_hash, cb):
+    """the property's statement on the implementation's observable behaviour.  An `epoch` starts when the object is
+    reset (a BlobBuffer reader consumed it, or delete()); every clause applies to every epoch of the same object."""
+
+    def __init__(self, blob_hash, cb, kind='file'):
         self.h = blob_hash                 # raw digest
         self.cb = cb
+        self.kind = kind
         self.fails = []                    # [(what, signature or None)]
         self.length = None
         self.fed = []                      # per writer: bytes passed to write() calls that did not raise OSError
         self.done_at = []                  # per writer: op index at which its future was first seen done
         self.key = []                      # per writer: its key
-        self.stale_reopen = []             # per writer: opened while an earlier writer of the same key was done
-        #                                    and no loop iteration had run since (its remove_writer still queued)
-        self.orphan = []                   # per writer: seen pending but absent from blob.writers (only possible
-        #                                    when another writer's remove_writer deleted its key)
-        self.last_iter = -1
-        self.win_at = None                 # number of writers existing when the first writer got its result
+        self.orphan = []                   # per writer: seen pending but absent from blob.writers
+        self.epoch_start = -1              # op index of the last reset
+        self.winner = None                 # (bytes, number of writers existing) of the first result of this epoch
+        self.ever_won = False
+        self.saves = 0                     # times verified went False -> True
+        self.last_idle = -1                # last op index after which the ready queue was empty
         self.prev = None
-        self.was_verified = False
         self.n = 0
 
     def fail(self, what, sig=None):
@@ -234,27 +246,36 @@ class Monitor:
         self.n += 1
         prev = self.prev
         name = op[0]
-        # ---- length: accepted once, inside 0..2^21, never changes
+        deleted = name == 'delete' and res == 'ok'
+        consumed = name == 'read' and isinstance(res, list) and self.kind == 'buffer'
+        # ---- length: accepted once per epoch, inside 0..2^21, changed only by delete()
+        if deleted:
+            if o['length'] is not None or o['verified'] or o['store'] is not None:
+                self.fail(f'op {i}: after delete() the blob still has a length / is verified / is stored')
+            self.length = None
         if self.length is not None and o['length'] != self.length:
             self.fail(f'op {i}: accepted length changed from {self.length} to {o["length"]}')
         if o['length'] is not None:
             if not (isinstance(o['length'], int) and 0 <= o['length'] <= MAX):
                 self.fail(f'op {i}: length {o["length"]} outside 0..2^21 was accepted')
             self.length = o['length']
+        # ---- reading: only a verified blob, and the reader gets the named bytes of the accepted length
+        if name == 'read':
+            if isinstance(res, list):
+                b = res[1]
+                if prev is None or not prev['verified']:
+                    self.fail(f'op {i}: a blob that is not verified was readable')
+                if sha(b) != self.h or len(b) != self.length or (prev is not None and b != prev['store']):
+                    self.fail(f'op {i}: a reader got bytes that are not the named bytes / not what is stored')
+            elif prev is not None and prev['verified']:
+                self.fail(f'op {i}: a verified blob could not be read')
         # ---- bookkeeping of writers
         if name == 'open' and isinstance(res, list):
-            stale = False
-            for j, k in enumerate(self.key):
-                if k == op[1] and self.done_at[j] is not None and self.done_at[j] > self.last_iter:
-                    stale = True
             self.key.append(op[1])
             self.fed.append(b'')
             self.done_at.append(None)
-            self.stale_reopen.append(stale)
             self.orphan.append(False)
-        if name in ('tick', 'drain'):
-            self.last_iter = i
-        if name == 'write' and res != 'OSError' and op[1] < len(self.fed):
+        if name == 'write' and res not in ('OSError', 'badid') and op[1] < len(self.fed):
             d = bytes.fromhex(op[2]) if isinstance(op[2], str) else op[2]
             before = prev['writers'][op[1]] if prev else None
             self.fed[op[1]] += d
@@ -277,33 +298,38 @@ class Monitor:
                         o['store'] != prev['store'] or o['io'] != prev['io'] or o['writing'] != prev['writing']):
                     self.fail(f'op {i}: a write that did not complete a correct copy changed what is stored')
         # ---- an in-range length is accepted when none was accepted before
-        if name == 'len' and prev is not None and prev['length'] is None and isinstance(op[1], int) \
-                and 0 <= op[1] <= MAX and o['length'] != op[1]:
-            self.fail(f'op {i}: set_length({op[1]}) within 0..2^21 was not accepted by a blob without length')
-        if name == 'len' and prev is None and isinstance(op[1], int) and 0 <= op[1] <= MAX and o['length'] != op[1]:
+        had = prev['length'] if prev is not None else None
+        if name == 'len' and had is None and isinstance(op[1], int) and 0 <= op[1] <= MAX and o['length'] != op[1]:
             self.fail(f'op {i}: set_length({op[1]}) within 0..2^21 was not accepted by a blob without length')
         registered = {wid for _, wid in o['map']}
-        anyone_won = any(isinstance(f, list) for _, f in o['writers'])
+        won_now = self.winner is not None
         for j, (closed, f) in enumerate(o['writers']):
             if f == 'pending' and j not in registered:
                 if not self.orphan[j]:
                     self.fail(f'op {i}: pending writer {j} is not registered in blob.writers (it would not be shut down)')
                 self.orphan[j] = True
-            # a healthy writer is shut down only by its own close, blob.close() or a winner
-            was = prev['writers'][j] if prev is not None and j < len(prev['writers']) else None
-            if was is not None and was[1] == 'pending' and f == 'cancelled' and not anyone_won \
-                    and not (name == 'closeblob' or (name in ('closew', 'write') and op[1] == j)):
-                self.fail(f'op {i}: writer {j} was cancelled by {name} although no writer delivered a correct copy')
-            if f != 'pending' and self.done_at[j] is None:
+            first_done = f != 'pending' and self.done_at[j] is None
+            if first_done:
                 self.done_at[j] = i
             if isinstance(f, list):
                 b = f[1]
-                if b != self.fed[j] or len(b) != self.length or sha(b) != self.h:
+                if b != self.fed[j] or sha(b) != self.h or (first_done and len(b) != self.length):
                     self.fail(f'op {i}: writer {j} finished with a result that is not the complete correct copy it was fed')
-                if self.win_at is None:
-                    self.win_at = len(o['writers'])
+                self.ever_won = True
+                if first_done and self.winner is None:
+                    self.winner = (b, len(o['writers']))
+                    won_now = True
             if isinstance(f, str) and (f.startswith('exc:')):
                 self.fail(f'op {i}: writer {j} future holds {f}')
+        # a result delivered before a reset whose writer_finished_callback had not run yet still shuts the others down
+        won_now = won_now or any(isinstance(f, list) and self.done_at[j] is not None and self.done_at[j] > self.last_idle
+                                 for j, (_, f) in enumerate(o['writers']))
+        for j, (closed, f) in enumerate(o['writers']):
+            # a healthy writer is shut down only by its own close, blob.close()/delete() or a winner
+            was = prev['writers'][j] if prev is not None and j < len(prev['writers']) else None
+            if was is not None and was[1] == 'pending' and f == 'cancelled' and not won_now \
+                    and not (name == 'closeblob' or deleted or (name in ('closew', 'write') and op[1] == j)):
+                self.fail(f'op {i}: writer {j} was cancelled by {name} although no writer delivered a correct copy')
         # ---- nothing but the named bytes is ever stored / verified
         if o['extra_files']:
             self.fail(f'op {i}: unexpected files in the blob directory: {o["extra_files"]}')
@@ -314,17 +340,39 @@ class Monitor:
             if not any(isinstance(f, list) and f[1] == b for _, f in o['writers']):
                 self.fail(f'op {i}: stored bytes were not delivered by any writer')
         if o['verified']:
-            self.was_verified = True
+            if prev is None or not prev['verified']:
+                self.saves += 1
             if o['store'] is None:
                 self.fail(f'op {i}: blob is verified but nothing is stored')
-        elif self.was_verified:
-            self.fail(f'op {i}: verified was reset')
-        if o['completed'] > (1 if self.cb else 0):
-            self.fail(f'op {i}: completion callback fired {o["completed"]} times')
-        if o['completed'] and not o['verified']:
-            self.fail(f'op {i}: completion callback fired before the blob was verified')
+        elif prev is not None and prev['verified'] and not (deleted or consumed):
+            self.fail(f'op {i}: verified was reset by {name}')
+        if not self.ever_won and (o['verified'] or o['store'] is not None or o['completed']):
+            self.fail(f'op {i}: no writer delivered a correct copy, yet something was stored / verified / announced')
+        if o['completed'] > (self.saves if self.cb else 0):
+            self.fail(f'op {i}: completion callback fired {o["completed"]} times for {self.saves} verification(s)')
+        # ---- as soon as the loop is idle and the executor has nothing to do: a complete correct copy delivered on
+        #      this object since its last reset means verified, with exactly those bytes, everybody else shut down
+        if deleted or consumed:
+            self.epoch_start = i
+            self.winner = None
+        if o['qlen'] == 0 and o['io'] == 0:
+            if self.winner is not None:
+                b, nw = self.winner
+                if not o['verified']:
+                    self.fail(f'op {i}: a writer delivered a complete correct copy (after op {self.epoch_start}) but with the '
+                              f'loop idle and no executor job pending the blob is not verified')
+                elif o['store'] != b:
+                    self.fail(f'op {i}: the blob is verified but does not hold exactly the delivered bytes')
+                for j, (closed, f) in enumerate(o['writers'][:nw]):
+                    if not closed or f == 'pending':
+                        self.fail(f'op {i}: writer {j} is still {"open" if not closed else "closed"}/{_short(f)} after another '
+                                  'writer won' + (' (it had been unregistered from blob.writers while pending)' if self.orphan[j] else ''))
+            if o['completed'] != (self.saves if self.cb else 0):
+                self.fail(f'op {i}: completion callback fired {o["completed"]} times for {self.saves} verification(s)')
         if isinstance(res, str) and res.startswith('unexpected'):
             self.fail(f'op {i}: {op[0]} raised {res}')
+        if o['qlen'] == 0:
+            self.last_idle = i
         self.prev = o
 
     def readable(self, blob, o):
@@ -345,22 +393,8 @@ class Monitor:
             self.fail('the blob is readable although it is not verified')
 
     def finish(self, ops):
-        """called when the case ended with drain, io, drain"""
-        o = self.prev
-        if o is None or [x[0] for x in ops[-3:]] != ['drain', 'io', 'drain']:
-            return
-        if self.win_at is not None:
-            if not o['verified']:
-                self.fail('a writer delivered a complete correct copy but after drain; io; drain the blob is not verified')
-            if o['completed'] != (1 if self.cb else 0):
-                self.fail(f'completion callback fired {o["completed"]} times after a complete correct copy')
-            for j, (closed, f) in enumerate(o['writers'][:self.win_at]):
-                if not closed or f == 'pending':
-                    self.fail(f'writer {j} is still {"open" if not closed else "closed"}/{_short(f)} after another writer won'
-                              + (' (it had been unregistered from blob.writers while pending)' if self.orphan[j] else ''))
-        else:
-            if o['verified'] or o['store'] is not None or o['completed']:
-                self.fail('no writer delivered a correct copy, yet something was stored / verified / announced')
+        """the per-step clauses already cover the idle end state reached by drain; io; drain"""
+        return
 
 
 def _short(x):
@@ -489,6 +523,12 @@ def gen_case(rng, run):
                 sess.do(['closew', rng.choice(live)[0]])
             elif c < 0.955:
                 sess.do(['closeblob'])
+            elif c < 0.965:
+                sess.do(['read'])
+            elif c < 0.975:
+                res, _ = sess.do(['delete'])
+                if res == 'ok':
+                    set_len = False
             elif c < 0.985 and live:
                 # the same peer asks again: refused while its writer is live, accepted after it failed/closed
                 w = rng.choice(live)
@@ -507,12 +547,68 @@ def gen_case(rng, run):
         sess.close()
 
 
+def gen_redownload(rng, run):
+    """the same object is downloaded, reset (a BlobBuffer reader consumes it / delete()), and downloaded again, 2-3
+    times; every round has 1-2 peers, at most one of them honest-but-slow or corrupting"""
+    kind = rng.choice(['file', 'buffer'])
+    cb = rng.random() < 0.85
+    data = bytes(rng.randrange(256) for _ in range(pick_len(rng)))
+    L = len(data)
+    sess = Session(kind, cb, data)
+    try:
+        rounds = rng.choice([2, 2, 3])
+        for rd in range(rounds):
+            if sess.length is None:
+                if rng.random() < 0.15:
+                    sess.do(['len', rng.choice([MAX + 1, -1])])
+                sess.do(['len', L])
+            peers = []
+            good_key = rng.randrange(4)
+            res, _ = sess.do(['open', good_key])
+            if isinstance(res, list):
+                peers.append([res[1], chunking(rng, data)])
+            if rng.random() < 0.5:
+                kd = rng.choice(['flip_first', 'flip_last', 'overlong', 'truncated', 'correct'])
+                res, _ = sess.do(['open', (good_key + 1 + rng.randrange(3)) % 4])
+                run.count('writer:' + kd)
+                if isinstance(res, list):
+                    peers.append([res[1], chunking(rng, make_data(rng, kd, data))])
+            run.count('writer:correct')
+            guard = 0
+            while any(p[1] for p in peers) and guard < 200:
+                guard += 1
+                c = rng.random()
+                if c < 0.75:
+                    p = rng.choice([q for q in peers if q[1]])
+                    res, _ = sess.do(['write', p[0], p[1].pop(0).hex()])
+                    if res == 'OSError':
+                        p[1] = []
+                elif c < 0.9:
+                    sess.do(['tick'])
+                else:
+                    sess.do(['io'])
+            for o in (['drain'], ['io'], ['drain']):
+                sess.do(o)
+            if rd + 1 < rounds:
+                c = rng.random()
+                if c < 0.6 or kind == 'buffer' and c < 0.8:
+                    sess.do(['read'])
+                if kind == 'file' or c >= 0.5:
+                    sess.do(['delete'])
+                run.count('reset:' + kind)
+        for o in (['drain'], ['io'], ['drain']):
+            sess.do(o)
+        return sess.result()
+    finally:
+        sess.close()
+
+
 class Session:
     def __init__(self, kind, cb, data, blob_hash=None):
         self.kind, self.cb, self.data = kind, cb, data
         self.hash = blob_hash if blob_hash is not None else sha(data)
         self.impl = Impl(kind, cb, self.hash.hex())
-        self.mon = Monitor(self.hash, cb)
+        self.mon = Monitor(self.hash, cb, kind)
         self.ops = []
         self.trace = []
         self.length = None
@@ -610,7 +706,7 @@ def judge(run, model, case, trace, mon, label):
         for what, sig in mon.fails:
             run.violation(case, what, signature=sig if sig else {'case': hashlib.sha1(vlib.canon(case).encode()).hexdigest()})
         return
-    impl = [[res, canon_obs(o)] for res, o in trace]
+    impl = [[['read', res[1].hex()] if isinstance(res, list) and res[0] == 'read' else res, canon_obs(o)] for res, o in trace]
     mod = model_trace(model, case)
     if len(impl) != len(mod):
         run.compare('C01.run', case, {'steps': len(impl)}, {'steps': len(mod)})
@@ -683,17 +779,22 @@ def main(run):
                 'random bytes, 1-3 writers (sometimes the same peer twice) each sending correct / one bit flipped at the '
                 'first, middle or last byte / truncated / over-long by 1..7 / unrelated / empty data in a random chunking '
                 '(whole, 1-byte, boundary cuts, empty chunks), chunk writes interleaved at random with loop iterations '
-                '(tick), full drains, executor completions (io), close_handle, blob.close, re-opens of the same peer and '
-                'set_length with valid and invalid values, always ending in drain; io; drain. Then every interleaving of '
+                '(tick), full drains, executor completions (io), close_handle, blob.close, reads, delete(), re-opens of the same peer and '
+                'set_length with valid and invalid values, always ending in drain; io; drain; every 8th case downloads the same object '
+                '2-3 times with a reset (BlobBuffer reader consuming it / delete()) in between. Then every interleaving of '
                 '2 writers x 1-3 chunks x 5 data kinds on a 3-byte blob. distinct = distinct (kind, data, op list); '
                 'non-trivial = at least one chunk was accepted by a writer. Monitor-only: 2 MiB and 2 MiB+1 blobs.')
     for nm, case in load_corpus():
         c, trace, mon = run_fixed(case)
         judge(run, model, c, trace, mon, 'corpus')
     n_rand = vlib.scaled(run.tier, 9000, 200000)
-    for _ in range(n_rand):
-        case, trace, mon = gen_case(rng, run)
-        judge(run, model, case, trace, mon, 'random')
+    for n in range(n_rand):
+        if n % 8 == 7:
+            case, trace, mon = gen_redownload(rng, run)
+            judge(run, model, case, trace, mon, 're-download')
+        else:
+            case, trace, mon = gen_case(rng, run)
+            judge(run, model, case, trace, mon, 'random')
     tails = ['none'] if run.tier == 'quick' else ['none', 'tick-each', 'tick-io-each']
     kinds = ['file'] if run.tier == 'quick' else ['file', 'buffer']
     for kind in kinds:
